@@ -29,6 +29,7 @@ let () =
   Modelrun_ext.register reg;
   Alloc_driver.register reg;
   Pages_driver.register reg;
+  Pages_driver.commit_register reg;
   Monitor_driver.register reg;
   Pqw_driver.register reg;
   try
